@@ -22,6 +22,8 @@
 (* body are two separate critical sections - another response can land between them (NoInterleave).          *)
 (* Dev_ExtractOnlyFirst = TRUE: of several complete requests that arrive in one segment only the first is    *)
 (* extracted, the others wait in the session buffer for bytes that never come (AllAnswered).                 *)
+(* Dev_CloseDropsQueued = TRUE: the close command discards what is still queued for writing - a large         *)
+(* response that was the last thing sent is cut inside its body (Transport::close is abortive; F-16c).        *)
 (* Dev_CompletionOrder = TRUE is the code as it was when this check was written (F-16a): a worker sends as    *)
 (* soon as its handler returns.  FALSE is the design the property describes: the responses of one connection  *)
 (* are sequenced.  Dev_BadFramingWaits = TRUE: an undecidable length is "need more data" for ever (F-15e).    *)
@@ -32,7 +34,7 @@ EXTENDS Integers, Sequences, FiniteSets, TLC, Json
 CONSTANTS Variants,      \* set of request records
           MaxLen,        \* requests per pipeline
           Workers,       \* worker threads available to this connection
-          Dev_CompletionOrder, Dev_BadFramingWaits, Dev_SplitSendUnlocked, Dev_ExtractOnlyFirst
+          Dev_CompletionOrder, Dev_BadFramingWaits, Dev_SplitSendUnlocked, Dev_ExtractOnlyFirst, Dev_CloseDropsQueued
 
 VARIABLES pipe, nextIn, ioStop, ioClosed, queue, running, finished, sent, closedBy, wire, closed, relOrder,
           lock,        \* holder of the send lock (0: free)
@@ -100,9 +102,13 @@ SendBody(i) == /\ i \in headed /\ (lock = i \/ (Dev_SplitSendUnlocked /\ lock = 
                /\ UNCHANGED <<pipe, nextIn, ioStop, ioClosed, queue, finished, closedBy, closed, relOrder>>
 
 \* the close command that follows the response of a closing request (not atomic with the send)
+\* (a large body that is the last thing on the wire may still be in the write queue: "t" = truncated body)
 Close(i) == /\ i \in sent /\ Closing(pipe[i]) /\ i \notin closedBy
             /\ closedBy' = closedBy \cup {i} /\ closed' = TRUE /\ running' = running \ {i}
-            /\ UNCHANGED <<pipe, nextIn, ioStop, ioClosed, queue, finished, sent, wire, relOrder, lock, headed>>
+            /\ \/ UNCHANGED wire
+               \/ /\ Dev_CloseDropsQueued /\ ~closed /\ wire # <<>> /\ wire[Len(wire)][2] = "b"
+                  /\ wire' = [wire EXCEPT ![Len(wire)] = <<wire[Len(wire)][1], "t">>]
+            /\ UNCHANGED <<pipe, nextIn, ioStop, ioClosed, queue, finished, sent, relOrder, lock, headed>>
 
 FinishStep == \E i \in 1..N : Finish(i)
 SendStep == \E i \in 1..N : Send(i)
@@ -121,12 +127,12 @@ FirstClosing == IF \E i \in 1..N : Closing(pipe[i]) THEN CHOOSE i \in 1..N : Clo
 Upto(n) == [i \in 1..n |-> i]
 IsPrefix(a, b) == Len(a) <= Len(b) /\ \A i \in 1..Len(a) : a[i] = b[i]
 \* the requests whose response STARTS at each response start on the wire / whose response is complete
-Starts == LET H == SelectSeq(wire, LAMBDA e : e[2] # "b") IN [k \in 1..Len(H) |-> H[k][1]]
-Completed == LET H == SelectSeq(wire, LAMBDA e : e[2] # "h") IN [k \in 1..Len(H) |-> H[k][1]]
+Starts == LET H == SelectSeq(wire, LAMBDA e : e[2] \in {"w", "h"}) IN [k \in 1..Len(H) |-> H[k][1]]
+Completed == LET H == SelectSeq(wire, LAMBDA e : e[2] \in {"w", "b"}) IN [k \in 1..Len(H) |-> H[k][1]]
 \* octets of different responses never interleave: a head is followed by its own body and by nothing else
 NoInterleave == \A p \in 1..Len(wire) :
-                   /\ (wire[p][2] = "h" /\ p < Len(wire)) => wire[p + 1] = <<wire[p][1], "b">>
-                   /\ wire[p][2] = "b" => (p > 1 /\ wire[p - 1] = <<wire[p][1], "h">>)
+                   /\ (wire[p][2] = "h" /\ p < Len(wire)) => (wire[p + 1][1] = wire[p][1] /\ wire[p + 1][2] \in {"b", "t"})
+                   /\ wire[p][2] \in {"b", "t"} => (p > 1 /\ wire[p - 1] = <<wire[p][1], "h">>)
 \* responses are written in request order, each at most once, none after the response of the closing request
 InOrder == IsPrefix(Starts, Upto(IF FirstClosing > N THEN N ELSE FirstClosing))
 \* at the end every request up to the closing one has its response (the closing one may be answered by the close
